@@ -271,8 +271,10 @@ def judge_twin(case, mine, other):
     if st == "ok" and so == "ok":
         a, b = parse_value(tx), parse_value(to)
         return None if (same(a, b) or tx == to) else f"literal constants give {tx}, hidden constants give {to}"
-    if st == "parse_error" and tx.split("|", 1)[0] in EXEC_ERRORS:
-        return None   # permitted: an operation on constants that fails whenever evaluated, reported early
+    if (st == "parse_error" and tx.split("|", 1)[0] in EXEC_ERRORS) or (so == "parse_error" and to.split("|", 1)[0] in EXEC_ERRORS):
+        # permitted: an operation on constants that fails whenever evaluated, reported early (the "hidden" side may
+        # still contain such an operation on literals that are not among the hidden constants)
+        return None
     if st == "exec_error" and so == "exec_error":
         return None if tx.split("|", 1)[0] == to.split("|", 1)[0] else f"literal constants fail with `{tx}`, hidden constants with `{to}`"
     return f"literal constants: {st}: {tx}; hidden constants: {so}: {to}"
@@ -979,10 +981,137 @@ def split_top(body):
     return parts
 
 
+class _Gen:
+    """random well-typed programs over constants K0..K3 (int), F0..F1 (float), B0 (bool) for the differential
+    C04 probes: no oracle is needed, the literal and the hidden-constant version must agree"""
+    def __init__(self, rnd):
+        self.r = rnd
+        self.ints, self.floats, self.bools, self.cells = [], [], [], []
+        self.n = 0
+
+    def fresh(self, p):
+        self.n += 1
+        return f"{p}{self.n}"
+
+    def int_e(self, d):
+        r = self.r
+        c = r.random()
+        if d <= 0 or c < 0.3:
+            opts = ["K0", "K1", "K2", "K3", str(r.choice([0, 1, 2, 3, 7, 63, 64]))] + self.ints + [f"(*{m})" for m in self.cells]
+            return r.choice(opts)
+        if c < 0.75:
+            op = r.choice(["+", "-", "*", "/", "%", "<<", ">>", "&", "|", "^", "+", "-", "*"])
+            return f"({self.int_e(d - 1)} {op} {self.int_e(d - 1)})"
+        if c < 0.85:
+            return f"(-{self.int_e(d - 1)})"
+        return f"(!{self.int_e(d - 1)})"
+
+    def float_e(self, d):
+        r = self.r
+        if d <= 0 or r.random() < 0.35:
+            return r.choice(["F0", "F1", "0.5", "3.0", "0.1"] + self.floats)
+        op = r.choice(["+", "-", "*", "/"])
+        return f"({self.float_e(d - 1)} {op} {self.float_e(d - 1)})"
+
+    def bool_e(self, d):
+        r = self.r
+        c = r.random()
+        if d <= 0 or c < 0.2:
+            return r.choice(["B0", "true", "false"] + self.bools)
+        if c < 0.6:
+            op = r.choice(["<", "<=", ">", ">=", "==", "!="])
+            return f"({self.int_e(d - 1)} {op} {self.int_e(d - 1)})"
+        if c < 0.7:
+            op = r.choice(["<", ">", "==", "<="])
+            return f"({self.float_e(d - 1)} {op} {self.float_e(d - 1)})"
+        if c < 0.9:
+            op = r.choice(["&&", "||", "&", "|", "^"])
+            return f"({self.bool_e(d - 1)} {op} {self.bool_e(d - 1)})"
+        return f"(!{self.bool_e(d - 1)})"
+
+    def stmt(self, d):
+        r = self.r
+        c = r.random()
+        if c < 0.22:
+            v = self.fresh("v")
+            s = f"{v} := {self.int_e(2)}"
+            self.ints.append(v)
+            return s
+        if c < 0.3:
+            v = self.fresh("v")
+            s = f"{v} := if {self.bool_e(2)} {{ {self.int_e(1)} }} else {{ {self.int_e(1)} }}"
+            self.ints.append(v)
+            return s
+        if c < 0.4:
+            v = self.fresh("b")
+            s = f"{v} := {self.bool_e(2)}"
+            self.bools.append(v)
+            return s
+        if c < 0.5:
+            v = self.fresh("f")
+            s = f"{v} := {self.float_e(2)}"
+            self.floats.append(v)
+            return s
+        if c < 0.65 or not self.cells:
+            m = self.fresh("m")
+            s = f"{m} := mut {self.int_e(1)}"
+            self.cells.append(m)
+            return s
+        if c < 0.8:
+            m = r.choice(self.cells)
+            op = r.choice(["+=", "-=", "*=", "=", "&=", "|=", "^=", "/=", "%=", "<<=", ">>="])
+            return f"{m} {op} {self.int_e(2)}"
+        if c < 0.92 and d > 0:
+            # names bound inside the branch must not escape it
+            saved = (list(self.ints), list(self.floats), list(self.bools), list(self.cells))
+            body = "; ".join(self.stmt(d - 1) for _ in range(r.randint(1, 2)))
+            self.ints, self.floats, self.bools, self.cells = saved
+            return f"if {self.bool_e(2)} {{ {body} }}"
+        m = r.choice(self.cells)
+        i = self.fresh("i")
+        return f"{i} := mut 0; while *{i} < 3 {{ {i} += 1; {m} += {self.int_e(1)} }}"
+
+    def program(self):
+        stmts = [self.stmt(2) for _ in range(self.r.randint(3, 7))]
+        res = "(" + ", ".join(self.ints + self.floats + self.bools + [f"*{m}" for m in self.cells] + ["0", "0"]) + ")"
+        return "; ".join(stmts), res
+
+
+def fam_twins_random(tier, seed, extra=()):
+    out = []
+    n = 250 if tier == "quick" else 3000
+    rnd = random.Random(1000003 * (seed + 1))
+    consts = [0, 1, 2, 3, 5, 7, -1, -3, 63, 64, MAX, MIN + 1, 1 << 32]
+    fconsts = [0.0, -0.0, 0.1, 0.2, 0.3, 1.0, 3.0, 1e16, 1e308]
+    for k in range(n):
+        g = _Gen(random.Random(rnd.getrandbits(64)))
+        body, res = g.program()
+        ks = [rnd.choice(consts) for _ in range(4)]
+        fs = [rnd.choice(fconsts) for _ in range(2)]
+        b0 = rnd.random() < 0.5
+        def lit_i(v):
+            return f"({v})" if v >= 0 else f"(0 - {-v})"
+        def lit_f(v):
+            return repr(v) if (v > 0 or (v == 0 and math.copysign(1.0, v) > 0)) else f"(0.0 - {repr(-v)})" if v != 0 else "(0.0 * (0.0 - 1.0))"
+        def sub(t, kk, ff, bb):
+            t = re.sub(r"\bK([0-3])\b", lambda m: kk[int(m.group(1))], t)
+            t = re.sub(r"\bF([0-1])\b", lambda m: ff[int(m.group(1))], t)
+            return re.sub(r"\bB0\b", bb, t)
+        lit = sub(f"{body}; return {res}", [lit_i(v) for v in ks], [lit_f(v) for v in fs], "true" if b0 else "false")
+        hid = sub(f"{body}; return {res}", ["ck0", "ck1", "ck2", "ck3"], ["cf0", "cf1"], "cb0")
+        hprog = f"hidden := (ck0: int, ck1: int, ck2: int, ck3: int, cf0: float, cf1: float, cb0: bool) -> any {{ {hid} }}; hidden(vk0, vk1, vk2, vk3, vf0, vf1, vb0)"
+        lprog = f"literal := () -> any {{ {lit} }}; literal()"
+        vs = {"vk0": ks[0], "vk1": ks[1], "vk2": ks[2], "vk3": ks[3], "vf0": fs[0], "vf1": fs[1], "vb0": b0}
+        h = Case(f"rtwin/{k}/hidden", hprog, None, vs, mode="std")
+        out.append(h)
+        out.append(Case(f"rtwin/{k}/literal", lprog, Twin(h.id), mode="std", what=f"random program #{k} (seed {seed})"))
+    return out
+
+
 FAMILIES = {
     "unary:-": fam_unary, "bitwise": fam_bitwise, "compare": fam_compare, "float": fam_float, "eq": fam_eq,
     "eq_array": fam_eq_array, "index": fam_index, "slice": fam_slice, "order": fam_order, "control": fam_control,
-    "fold": fam_fold, "logic": fam_fold_logic, "twins": fam_twins,
+    "fold": fam_fold, "logic": fam_fold_logic, "twins": fam_twins, "twins_random": fam_twins_random,
 }
 
 
